@@ -162,7 +162,14 @@ func runC01(c *runCtx) {
 	}
 	sort.Strings(names)
 	drv := c.driver()
+	// the run keeps to a time budget: when many inputs hang (each costs its timeout), the inputs tried so far carry the report
+	deadline := c.start.Add(time.Duration(c.n(1000, 6000)) * time.Second)
+	hangs := 0
 	run := func(kind string, data []byte, timeout time.Duration) {
+		if time.Now().After(deadline) || hangs >= 12 {
+			res.stat("inputs-not-tried-budget-exhausted")
+			return
+		}
 		res.count(kind+":"+string(data), true)
 		res.stat("inputs:" + kind)
 		// tie of the tokenizer totality theorem: model and implementation agree on this input
@@ -183,6 +190,9 @@ func runC01(c *runCtx) {
 			wit["input_hex"] = hex.EncodeToString(data)
 		}
 		if ans == "crash" || ans == "hang" {
+			if ans == "hang" {
+				hangs++
+			}
 			// which entry point?
 			for _, n := range names {
 				a := pool.Run(n, data, timeout)
